@@ -26,26 +26,28 @@ CONSTANTS Tier          \* "quick" | "thorough" | "pairs"
 Bases == JsonDeserialize("bases.json")
 Deep == Tier = "thorough"
 
-VARIABLES phase, bi, rule, cs, prog, cmd, brk, broken, expected, conf
-vars == <<stage, outcome, filesWritten, li, mech, phase, bi, rule, cs, prog, cmd, brk, broken, expected, conf>>
+VARIABLES phase, bi, rule, cs, cmd, brk, broken, expected, conf, pre
+vars == <<stage, outcome, filesWritten, li, mech, phase, bi, rule, cs, cmd, brk, broken, expected, conf, pre>>
 
 NoCase == [kind |-> "none"]
+\* the program of the case in work: the state carries the edits, not the edited program
+CaseProg == IF cs.kind \in {"idl", "pair"} THEN ApplyEdits(Bases[bi].prog, cs.edits) ELSE Bases[bi].prog
 Idle == /\ stage = "idle" /\ outcome = NoOutcome /\ filesWritten = {} /\ li = 0 /\ mech = ""
 IdleUnchanged == UNCHANGED <<stage, outcome, filesWritten, li, mech>>
 
-Init == /\ phase = "root" /\ bi = 0 /\ rule = "" /\ cs = NoCase /\ prog = <<>> /\ cmd = <<>>
-        /\ brk = {} /\ broken = FALSE /\ expected = {} /\ conf = TRUE /\ Idle
+Init == /\ phase = "root" /\ bi = 0 /\ rule = "" /\ cs = NoCase /\ cmd = <<>>
+        /\ brk = {} /\ broken = FALSE /\ expected = {} /\ conf = TRUE /\ pre = NoPre /\ Idle
 
 PickBase == /\ phase = "root"
             /\ \E b \in Idx(Bases) : bi' = b
             /\ phase' = "base"
-            /\ UNCHANGED <<rule, cs, prog, cmd, brk, broken, expected, conf>> /\ IdleUnchanged
+            /\ UNCHANGED <<rule, cs, cmd, brk, broken, expected, conf, pre>> /\ IdleUnchanged
 
 Groups == IDLRules \cup {"cmd", "none"}
 PickRule == /\ phase = "base"
             /\ \E r \in Groups : rule' = r
             /\ phase' = "rule"
-            /\ UNCHANGED <<bi, cs, prog, cmd, brk, broken, expected, conf>> /\ IdleUnchanged
+            /\ UNCHANGED <<bi, cs, cmd, brk, broken, expected, conf, pre>> /\ IdleUnchanged
 
 \* which rules of the case hold, and whether the input is broken: the rules the case stands for are
 \* evaluated first, the whole catalogue only if none of them holds
@@ -59,8 +61,9 @@ Judge(p, c, case) ==
 
 \* an edited program, not yet run (its command line will be a good one)
 Edited(p, case) ==
-  /\ prog' = p /\ cs' = case /\ phase' = "edit"
+  /\ cs' = case /\ phase' = "edit"
   /\ Judge(p, GoodCmd("go", FALSE), case)
+  /\ pre' = PreLabels(p)
   /\ UNCHANGED <<bi, rule, cmd, expected, conf>> /\ IdleUnchanged
 
 \* enter the pipeline with program p and command line c
@@ -72,8 +75,8 @@ Enter(p, c) ==
   /\ stage' = "args" /\ outcome' = NoOutcome /\ filesWritten' = {} /\ li' = 1 /\ mech' = ""
   /\ UNCHANGED <<bi, rule>>
 Start(p, c, case) ==
-  /\ prog' = p /\ cs' = case
-  /\ IF phase = "edit" THEN UNCHANGED <<brk, broken>> ELSE Judge(p, c, case)
+  /\ cs' = case
+  /\ IF phase = "edit" THEN UNCHANGED <<brk, broken, pre>> ELSE Judge(p, c, case) /\ pre' = NoPre
   /\ Enter(p, c)
 
 \* backend x -r. The quick tier runs the rules whose values only the backend types under all four
@@ -92,7 +95,7 @@ PickEdit ==
      IN \E k \in Idx(es) : Edited(ApplyEdit(base, es[k]), IdlCase(<<es[k]>>))
 PickConfig ==
   /\ phase = "edit"
-  /\ \E c \in Configs(rule) : Start(prog, GoodCmd(c[1], c[2]), cs)
+  /\ \E c \in Configs(rule) : Start(CaseProg, GoodCmd(c[1], c[2]), cs)
 
 PickCmdFault ==
   /\ phase = "rule" /\ rule = "cmd" /\ Tier # "pairs"
@@ -110,7 +113,7 @@ PickFirst ==
   /\ LET es == EditsFor(Bases[bi].prog, rule, 1, FALSE)
      IN \E k \in Idx(es) : cs' = IdlCase(<<es[k]>>)
   /\ phase' = "second"
-  /\ UNCHANGED <<bi, rule, prog, cmd, brk, broken, expected, conf>> /\ IdleUnchanged
+  /\ UNCHANGED <<bi, rule, cmd, brk, broken, expected, conf, pre>> /\ IdleUnchanged
 PickSecond ==
   /\ phase = "second"
   /\ \E r2 \in IDLRules :
@@ -119,11 +122,11 @@ PickSecond ==
        IN \E k \in Idx(es) : LET both == cs.edits \o <<es[k]>> IN Edited(ApplyEdits(base, both), IdlCase(both))
 
 Run == /\ phase = "run"
-       /\ BNext(prog, cmd)
+       /\ BNextPre(CaseProg, cmd, pre)
        /\ conf' = (conf /\ ANext(broken, expected))
-       /\ UNCHANGED <<phase, bi, rule, cs, prog, cmd, brk, broken, expected>>
+       /\ UNCHANGED <<phase, bi, rule, cs, cmd, brk, broken, expected, pre>>
 
-\* prog, broken, brk and expected are functions of (bi, cs, cmd): they are left out of the fingerprint
+\* broken, brk, expected and pre are functions of (bi, cs, cmd): they are left out of the fingerprint
 View == <<stage, outcome, filesWritten, li, mech, phase, bi, rule, cs, cmd, conf>>
 
 Next == PickBase \/ PickRule \/ PickEdit \/ PickConfig \/ PickCmdFault \/ PickNone \/ PickFirst \/ PickSecond \/ Run
